@@ -11,6 +11,11 @@ From the source text of /repo/mako/lexer.py and /repo/mako/parsetree.py (Python 
                       comes after the preprocessor loop (the last statement that assigns `self.text`) and before
                       the `while` loop: the loop's `match_position > textlength` test and `match_reg`'s column
                       arithmetic then refer to the text that is actually lexed;
+  * `pyparserWrapsEveryException` - in mako/pyparser.py `parse`, the `try` around `_ast_util.parse(...)` has a
+                      handler that is bare or catches `Exception` / `BaseException` and raises
+                      `exceptions.SyntaxException`: whatever CPython's parser raises for the Python inside a
+                      directive (SyntaxError, ValueError, UnicodeEncodeError, MemoryError, RecursionError ...)
+                      leaves the lexer as a Mako exception;
   * `primaryKeywords` / `ternaryTable` - `ControlLine.is_primary`'s list and `ControlLine.is_ternary`'s dict;
   * `regexFingerprint` - sha1 over all string literals passed to `self.match(...)`/`re.match`/`re.findall`/
                       `re.compile` in lexer.py (never changes a verdict; the harness only uses it to decide how
@@ -81,6 +86,25 @@ def textlength_order(fn):
     return (i_text is None or i_text < i_len) and i_len < i_while
 
 
+def pyparser_wraps_everything(repo):
+    tree = parse(repo, "mako/pyparser.py")
+    fn = find_func(tree.body, "parse", "mako/pyparser.py")
+    for n in ast.walk(fn):
+        if isinstance(n, ast.Try):
+            calls = [c for st in n.body for c in ast.walk(st) if isinstance(c, ast.Call)
+                     and isinstance(c.func, ast.Attribute) and c.func.attr == "parse"]
+            if not calls:
+                continue
+            for h in n.handlers:
+                wide = h.type is None or (isinstance(h.type, ast.Name) and h.type.id in ("Exception", "BaseException"))
+                raises = any(isinstance(r, ast.Raise) and r.exc is not None and "SyntaxException" in ast.dump(r.exc)
+                             for st in h.body for r in ast.walk(st))
+                if wide and raises:
+                    return True
+            return False
+    raise RegenError("mako/pyparser.py: parse() has no try statement around the parser call")
+
+
 def string_consts(node):
     """literal string value of an expression made of constants, implicit concatenation and `%`-formatting"""
     out = []
@@ -111,6 +135,7 @@ def gen(repo):
     cls = find_class(tree, "Lexer", LEX)
     order = matcher_order(find_func(cls.body, "parse", LEX))
     tl_ok = textlength_order(find_func(cls.body, "parse", LEX))
+    wraps = pyparser_wraps_everything(repo)
     mt = find_func(cls.body, "match_text", LEX)
     n_append = sum(1 for n in ast.walk(mt) if _is_self_call(n, "append_node"))
     if n_append == 0:
@@ -166,7 +191,7 @@ def gen(repo):
         seen[k] = v
     table = sorted(seen.items())
 
-    out = [HEADER % ("%s, %s" % (LEX, PT)), "namespace MakoModel.Generated.LexerCfg", "",
+    out = [HEADER % ("%s, %s, mako/pyparser.py" % (LEX, PT)), "namespace MakoModel.Generated.LexerCfg", "",
            "/-- the `if self.match_*():` cascade of `Lexer.parse`, in source order -/",
            "def matcherOrder : List String := [%s]" % ", ".join(lean_string(m) for m in order), "",
            "/-- `match_text` emits the character stepped over by the empty-match `+1` rule (fix for F1 present) -/",
@@ -175,6 +200,8 @@ def gen(repo):
            "def textTagStepBack : Bool := %s" % ("true" if step_back else "false"), "",
            "/-- `parse` sets `textlength = len(self.text)` after the preprocessor loop and before the main loop -/",
            "def textlengthIsLexedLength : Bool := %s" % ("true" if tl_ok else "false"), "",
+           "/-- `pyparser.parse` turns every exception of CPython's parser into a Mako `SyntaxException` -/",
+           "def pyparserWrapsEveryException : Bool := %s" % ("true" if wraps else "false"), "",
            "/-- `ControlLine.is_primary` -/",
            "def primaryKeywords : List (List Char) := [%s]" % ", ".join(lean_str(k) for k in primary), "",
            "/-- `ControlLine.is_ternary`: primary keyword ↦ its legal ternary keywords -/",
